@@ -478,7 +478,9 @@ func runStore(prop string, seed int64, n int) *Result {
 			if prop == "C11" {
 				var data []sresult
 				for i, o := range v {
-					if o.kind != opIndex && o.kind != opUnindex {
+					if o.kind == opCloseWatch {
+						data = append(data, sresult{kind: "ROk"}) // how much a closing stream still hands over is up to Go's select
+					} else if o.kind != opIndex && o.kind != opUnindex {
 						data = append(data, results[i])
 					}
 				}
